@@ -1155,6 +1155,24 @@ class CE:
             return list(itertools.product(*[list(self.iterate(a)) for a in args], **kwargs))
         if dotted in ("itertools.combinations",):
             return list(itertools.combinations(list(self.iterate(args[0])), args[1]))
+        if dotted in ("itertools.permutations", "itertools.combinations_with_replacement"):
+            return list(getattr(itertools, name)(list(self.iterate(args[0])), *args[1:]))
+        if dotted == "itertools.chain":
+            return [x for a in args for x in self.iterate(a)]
+        if dotted == "itertools.chain.from_iterable":
+            return [x for a in self.iterate(args[0]) for x in self.iterate(a)]
+        if dotted == "itertools.groupby":
+            # eager: (key, list of members) per run of equal keys, as the library groups them
+            kf = kwargs.get("key", args[1] if len(args) > 1 else None)
+            keyf = (lambda x: x) if kf is None else (lambda x: self.apply(kf, [x], {}, e, f))
+            return [(k, list(g)) for k, g in itertools.groupby(list(self.iterate(args[0])), key=keyf)]
+        if dotted == "itertools.accumulate" and len(args) == 1 and not kwargs:
+            items = list(self.iterate(args[0]))
+            if not all(isinstance(x, int) for x in items):
+                raise Unsupported("itertools.accumulate on non-integers")
+            return list(itertools.accumulate(items))
+        if dotted == "itertools.zip_longest":
+            return list(itertools.zip_longest(*[list(self.iterate(a)) for a in args], **kwargs))
         if dotted.startswith("numpy."):
             return self.call_numpy(name, args, kwargs, e, f)
         if dotted.startswith("math.") and name in ("isqrt", "sqrt", "floor", "ceil", "comb", "factorial", "log2", "gcd", "prod"):
